@@ -39,6 +39,16 @@ def current(c):
     return _cached(c, 'refusals', guards.extract)
 
 
+_NF = {}
+
+
+def _none_false(c):
+    k = id(c.index)
+    if k not in _NF:
+        _NF[k] = guards.false_on_none(c.index)
+    return _NF[k]
+
+
 def _show(row):
     return ', '.join('%s%s' % ('' if v else 'not ', a[:50]) for a, v in sorted(row.items()))[:300]
 
@@ -83,7 +93,7 @@ def check(chk, c, rule, funcs, classes=None, what='refusal'):
                 else:
                     chk.info('%s: %s/%s has too many elementary tests now; not compared' % (rule, fq, cls))
                 continue
-            lost, gained, note = guards.compare(r, cu)
+            lost, gained, note = guards.compare(r, cu, none_false=_none_false(c))
             if note:
                 chk.info('%s: %s/%s not compared (%s)' % (rule, fq, cls, note))
                 chk.ok(rule, construct, 'not compared: ' + note[:120], loc, key=key)
@@ -217,7 +227,7 @@ def check_decisions(chk, c, rule, select, what='decision structure'):
                     break
             if r[sig].get('n') != cu[sig].get('n') and r[sig]['rows'] == cu[sig]['rows'] and r[sig]['atoms'] == cu[sig]['atoms']:
                 continue
-            lost, gained, note = guards.compare(r[sig], cu[sig])
+            lost, gained, note = guards.compare(r[sig], cu[sig], none_false=_none_false(c))
             if note:
                 bad = ('note', sig, note)
                 break
